@@ -1018,6 +1018,11 @@ func (a *Agent) AddRemoteCandidate(cand Candidate) error {
 		return nil
 	}
 
+	// The candidate is added asynchronously; a closed agent will never add it.
+	if err := a.loop.Err(); err != nil {
+		return err
+	}
+
 	// TCP Candidates with TCP type active will probe server passive ones, so
 	// no need to do anything with them.
 	if cand.TCPType() == TCPTypeActive {
